@@ -96,11 +96,11 @@ tok(const char *line, const char *key, char *buf, size_t bufsz)
         const char *p = line;
 
         while (*p) {
-                while (*p == ' ' || *p == '\t')
+                while (*p == ' ' || *p == '\t' || *p == '\n' || *p == '\r')
                         p++;
                 const char *e = p;
 
-                while (*e && *e != ' ' && *e != '\t' && *e != '\n')
+                while (*e && *e != ' ' && *e != '\t' && *e != '\n' && *e != '\r')
                         e++;
                 if ((size_t) (e - p) > kl && strncmp(p, key, kl) == 0 && p[kl] == '=') {
                         size_t n = (size_t) (e - p) - kl - 1;
@@ -398,8 +398,10 @@ typedef struct {
         uint8_t opad[64] __attribute__((aligned(16)));
         uint64_t des[3][16] __attribute__((aligned(16)));
         const void *des3[3];
-        uint32_t sm4e[32], sm4d[32];
-        kasumi_key_sched_t kas;
+        /* the SM4 job reads the schedule with movdqa: 16-byte alignment needed (not documented) */
+        uint32_t sm4e[32] __attribute__((aligned(16)));
+        uint32_t sm4d[32] __attribute__((aligned(16)));
+        kasumi_key_sched_t kas __attribute__((aligned(16)));
         uint8_t snow[64] __attribute__((aligned(16)));
         struct gcm_key_data gcm;
 } xvkeys;
